@@ -25,6 +25,7 @@ type admStormSpec struct {
 	Peers   int `json:"peers"`
 	Workers int `json:"workers"`
 	Millis  int `json:"millis"`
+	ChangeCbMicros int `json:"change_cb_us"` // the change notification callback (display refresh in the application) takes this long
 	Cleaners int `json:"cleaners"` // goroutines that push the clock past the idle TTL and run the host's clean-up tick
 }
 
@@ -109,6 +110,9 @@ func admStorm(args []string) string {
 		return time.Now().Add(time.Duration(clockOffset.Load()))
 	}, fn)
 	sender = s
+	if g.ChangeCbMicros > 0 {
+		s.VerifSetOnChange(func() { time.Sleep(time.Duration(g.ChangeCbMicros) * time.Microsecond) })
+	}
 	bg := context.Background()
 	stop := make(chan struct{})
 	var wg sync.WaitGroup
@@ -173,7 +177,28 @@ func admStorm(args []string) string {
 	case <-time.After(3 * time.Second):
 		out["stalled"] = true
 	}
+	// quiescence: the handlers have stopped; transfers still running end within a millisecond each and every slot they free must
+	// go to whoever waits. Poll until the picture stops changing (or a waiting receiver sits next to a free slot for 300 ms).
 	time.Sleep(20 * time.Millisecond)
+	strandedFor := 0
+	for i := 0; i < 200; i++ {
+		q0, a0, _ := s.Snapshot()
+		if len(q0) > 0 && len(a0) < g.Max {
+			strandedFor++
+			if strandedFor >= 30 {
+				break
+			}
+		} else if len(a0) == 0 || len(q0) == 0 {
+			strandedFor = 0
+			if len(a0) == 0 {
+				break
+			}
+		} else {
+			strandedFor = 0
+		}
+		time.Sleep(10 * time.Millisecond)
+	}
+	out["stranded"] = strandedFor >= 30
 	q, a, st := s.Snapshot()
 	mu.Lock()
 	out["peak_uncancelled_transfers"] = peak
@@ -199,6 +224,91 @@ func admStorm(args []string) string {
 	var ps []string
 	panics.Range(func(k, v any) bool { ps = append(ps, fmt.Sprint(v)); return true })
 	out["panics"] = ps
+	b, _ := json.Marshal(out)
+	return string(b)
+}
+
+func init() { handlers["admhold"] = admHold }
+
+// admHold: max-receivers 2, a and b being served, c and d waiting. a's transfer ends; the pass that hands its slot to c is held in
+// the change notification (where the application redraws its display) while b's transfer ends too; then the notification returns.
+// d must be started: a slot is free and d waits.
+func admHold(args []string) string {
+	out := map[string]any{}
+	release := map[string]chan struct{}{}
+	var mu sync.Mutex
+	started := map[string]int{}
+	for _, p := range []string{"a", "b", "c", "d"} {
+		release[p] = make(chan struct{})
+	}
+	fn := func(ctx context.Context, peer string) error {
+		mu.Lock()
+		started[peer]++
+		ch := release[peer]
+		mu.Unlock()
+		select {
+		case <-ch:
+		case <-ctx.Done():
+		}
+		return nil
+	}
+	s := app.VerifNewSender(2, time.Hour, time.Now, fn)
+	var hold atomic.Bool
+	inChange := make(chan struct{}, 1)
+	resume := make(chan struct{})
+	var first atomic.Bool
+	s.VerifSetOnChange(func() {
+		if hold.Load() {
+			// the notification raised by the pass that has just handed a's slot to c
+			_, _, st := s.Snapshot()
+			if st["c"] == "TRANSFERRING" && first.CompareAndSwap(false, true) {
+				inChange <- struct{}{}
+				<-resume
+			}
+		}
+	})
+	bg := context.Background()
+	for _, p := range []string{"a", "b", "c", "d"} {
+		s.Joined(p)
+		s.Accept(bg, p)
+	}
+	waitStarted := func(p string) bool {
+		for i := 0; i < 200; i++ {
+			mu.Lock()
+			n := started[p]
+			mu.Unlock()
+			if n > 0 {
+				return true
+			}
+			time.Sleep(5 * time.Millisecond)
+		}
+		return false
+	}
+	if !waitStarted("a") || !waitStarted("b") {
+		out["setup_err"] = "a and b were not started"
+		b, _ := json.Marshal(out)
+		return string(b)
+	}
+	hold.Store(true)
+	close(release["a"])
+	held := false
+	select {
+	case <-inChange:
+		held = true
+	case <-time.After(time.Second):
+	}
+	close(release["b"])
+	time.Sleep(60 * time.Millisecond)
+	close(resume)
+	hold.Store(false)
+	out["held_in_change_notification"] = held
+	out["c_started"] = waitStarted("c")
+	out["d_started"] = waitStarted("d")
+	q, a, st := s.Snapshot()
+	out["queue"], out["active"], out["status"] = q, a, st
+	close(release["c"])
+	close(release["d"])
+	time.Sleep(20 * time.Millisecond)
 	b, _ := json.Marshal(out)
 	return string(b)
 }
